@@ -15,6 +15,16 @@ def answer (line : String) : String :=
       | some (A, []) => fmtVerdict (checkEquivVerdict fuel A t.toRx)
       | _ => "bad-op"
     | _ => "bad-op"
+  | "equivstats" :: ts =>
+    match parseTree ts with
+    | some (t, "|" :: ts) =>
+      match parseDfa ts with
+      | some (A, []) =>
+        let (e, c) := equivSearch 3000 A t.toRx
+        let sizes := e.pairs.toList.map (fun p => p.2.size)
+        s!"pairs {e.pairs.size} complete {e.complete} bad {e.bad.isSome} maxsize {sizes.foldl max 0} classes {c.reps.length} markers {c.markers.length}"
+      | _ => "bad-op"
+    | _ => "bad-op"
   | "bisim" :: ts =>
     match parseDfa ts with
     | some (A, "|" :: ts) =>
